@@ -259,6 +259,22 @@ pub struct SK {
     pub group: Option<bool>,
 }
 
+/// Hypothesised deviations from the documented semantics. They never decide whether an answer
+/// is wrong (the documented semantics alone does); they only give an observed deviation a
+/// precise, stable signature.
+#[derive(Clone, Copy, Debug, Default, PartialEq, Eq)]
+pub struct Quirks {
+    /// `script_len_range` treated as [lo, hi] instead of [lo, hi)
+    pub len_end_inclusive: bool,
+    /// prefix search also returning scripts whose args are the search args minus trailing
+    /// 0x00 bytes (the bytes following the args in a byte-wise key comparison being zero)
+    pub zero_prefix: bool,
+}
+
+pub fn shorter_args_plus_zeros(key: &Scr, s: &Scr) -> bool {
+    s.same_code(key) && s.args.len() < key.args.len() && key.args.starts_with(&s.args) && key.args[s.args.len()..].iter().all(|b| *b == 0)
+}
+
 fn in_range(x: u64, r: &Option<(u64, u64)>) -> bool {
     match r {
         // [inclusive, exclusive)
@@ -287,10 +303,15 @@ impl SK {
 
     /// get_cells / get_cells_capacity: does the live cell belong to the answer?
     pub fn cell_matches(&self, c: &Cell) -> bool {
+        self.cell_matches_with(c, Quirks::default())
+    }
+
+    /// `cell_matches` under hypothesised deviations (used only to NAME an observed deviation).
+    pub fn cell_matches_with(&self, c: &Cell, q: Quirks) -> bool {
         let Some(s) = self.searched(&c.lock, &c.type_) else {
             return false;
         };
-        if !s.matches(&self.script, self.eff_mode()) {
+        if !(s.matches(&self.script, self.eff_mode()) || (q.zero_prefix && self.eff_mode() == Mode::Prefix && shorter_args_plus_zeros(&self.script, s))) {
             return false;
         }
         let Some(f) = &self.filter else {
@@ -306,7 +327,8 @@ impl SK {
         }
         if f.script_len_range.is_some() {
             let l = other.map(|o| o.len()).unwrap_or(0);
-            if !in_range(l, &f.script_len_range) {
+            let r = f.script_len_range.map(|(lo, hi)| (lo, if q.len_end_inclusive { hi.saturating_add(1) } else { hi }));
+            if !in_range(l, &r) {
                 return false;
             }
         }
@@ -329,10 +351,14 @@ impl SK {
     /// script, exact — the documentation says "filter cells by type script", no prefix — and
     /// `block_range`).
     pub fn ev_matches(&self, e: &Ev) -> bool {
+        self.ev_matches_with(e, Quirks::default())
+    }
+
+    pub fn ev_matches_with(&self, e: &Ev, q: Quirks) -> bool {
         let Some(s) = self.searched(&e.lock, &e.type_) else {
             return false;
         };
-        if !s.matches(&self.script, self.eff_mode()) {
+        if !(s.matches(&self.script, self.eff_mode()) || (q.zero_prefix && self.eff_mode() == Mode::Prefix && shorter_args_plus_zeros(&self.script, s))) {
             return false;
         }
         let Some(f) = &self.filter else {
@@ -359,14 +385,20 @@ impl SK {
 impl Model {
     /// Expected get_cells answer in ascending (block number, tx index, output index) order.
     pub fn cells_for(&self, sk: &SK) -> Vec<&Cell> {
-        let mut v: Vec<&Cell> = self.live.values().filter(|c| sk.cell_matches(c)).collect();
+        self.cells_for_with(sk, Quirks::default())
+    }
+    pub fn cells_for_with(&self, sk: &SK, q: Quirks) -> Vec<&Cell> {
+        let mut v: Vec<&Cell> = self.live.values().filter(|c| sk.cell_matches_with(c, q)).collect();
         v.sort_by_key(|c| (c.block_number, c.tx_index, c.index));
         v
     }
     /// Expected ungrouped get_transactions answer in ascending (block number, tx index,
     /// io index, input before output) order.
     pub fn evs_for(&self, sk: &SK) -> Vec<&Ev> {
-        let mut v: Vec<&Ev> = self.evs.iter().filter(|e| sk.ev_matches(e)).collect();
+        self.evs_for_with(sk, Quirks::default())
+    }
+    pub fn evs_for_with(&self, sk: &SK, q: Quirks) -> Vec<&Ev> {
+        let mut v: Vec<&Ev> = self.evs.iter().filter(|e| sk.ev_matches_with(e, q)).collect();
         v.sort_by_key(|e| (e.block_number, e.tx_index, e.io_index, e.is_output));
         v
     }
